@@ -474,6 +474,30 @@ func run(r *mon.Run) {
 		sxgSeeds = append(sxgSeeds, buf.Bytes())
 		sxgDates = append(sxgDates, spec.Date.Add(time.Minute))
 	}
+	// hostile readers under the signed-exchange reader: every read schedule, a failing source at every offset (the
+	// prologue fields and the payload are read by different calls), a source that never ends
+	for i, s := range sxgSeeds {
+		for _, mode := range []string{"one-byte", "short-reads", "eof-with-data"} {
+			if mine() {
+				hr := &hostileReader{b: s, mode: mode, g: r.Rand("sxhr", i)}
+				guard(r, "ReadExchange", "reader="+mode, s, len(s), func() { signedexchange.ReadExchange(hr) })
+			}
+		}
+		for k := 0; k <= len(s); k++ {
+			if mine() {
+				hr := &hostileReader{b: s, mode: "error-after-k", failAt: k}
+				guard(r, "ReadExchange", "reader=error-after-k", s[:k], k, func() {
+					if e, err := signedexchange.ReadExchange(hr); err == nil && e != nil && k < len(s) {
+						r.Count("note:ReadExchange returned an exchange although its source failed before the end")
+					}
+				})
+			}
+		}
+		if mine() {
+			hr := &hostileReader{b: s[:len(s)-50], endless: 8 << 20}
+			guard(r, "ReadExchange", "reader=never-ending(8MiB)", s[:len(s)-50], len(s)+8<<20, func() { signedexchange.ReadExchange(hr) })
+		}
+	}
 	// validly signed exchanges whose header VALUES are hostile: the signature, the integrity check and every earlier
 	// step pass, so the code that interprets Cache-Control / Expires / Content-Type / Vary ... sees the values
 	{
